@@ -201,6 +201,24 @@ func BuildCases(r *rand.Rand, p *core.Program, cfg Config) (in *Inputs, cases []
 		}
 	}
 	in = &Inputs{Files: files, Data: map[string]map[string]core.V{}, IJ: core.V{"t": "none"}, ExprSrc: exprPool[r.Intn(len(exprPool))]}
+	// the map-valued and list-valued names are ONE object wherever they occur:
+	// the same nested map / list under different top-level data maps
+	in.Shared = map[string]core.V{}
+	for _, name := range []string{"m", "x"} {
+		for _, c := range cases {
+			if v, ok := c.Data[name]; ok && (v["t"] == "map" || v["t"] == "list") && nameType[name] == v["t"] {
+				in.Shared[name] = v
+				break
+			}
+		}
+		if sv, ok := in.Shared[name]; ok {
+			for _, c := range cases {
+				if v, ok := c.Data[name]; ok && v["t"] == sv["t"] {
+					c.Data[name] = sv
+				}
+			}
+		}
+	}
 	for i, c := range cases {
 		d := "d" + strconv.Itoa(i)
 		in.Data[d] = c.Data
@@ -253,11 +271,14 @@ func vary(r *rand.Rand, cmds []core.Cmd) {
 		case "call":
 			if c["data"] == "expr" {
 				de := c["de"].(core.E)
-				switch r.Intn(3) {
+				switch r.Intn(4) {
 				case 0:
 					c["de"] = core.EBin("elvis", de, de)
 				case 1:
 					c["de"] = core.ETern(core.EBool(true), de, de)
+				case 2:
+					// a function result that is (by value) the caller's map
+					c["de"] = core.EFn("augmentMap", de, core.EMap())
 				}
 			}
 		case "print":
